@@ -91,26 +91,26 @@ claimed = {
 
 # rules added after the seeded changes (DESIGN.md sections 4 and 11); appended to the claim text
 ADDED = {
- "C01": " Also: SOH/STX length bytes proved in range and equal to the bytes that follow; no raw Read and no second buffered reader on the session connection; borrowed reader buffers not used after the next read; each answer stored into the proposal it was asked for (single, batched, FS line); proposal fields written and parsed at the same positions with the MID kept verbatim; readSection consumes its terminator on every successful path.",
- "C02": " Also: a failed store in DirHandler.ProcessInbound reaches the session as an error on every path (C02-store); the deferred close of Exchange (C02-close).",
+ "C01": " Also: SOH/STX length bytes proved in range and equal to the bytes that follow; no raw Read and no second buffered reader on the session connection; borrowed reader buffers not used after the next read; each answer stored into the proposal it was asked for (single, batched, FS line); proposal fields written and parsed at the same positions with the MID kept verbatim; readSection consumes its terminator on every successful path. Header values of one key are written in their own order (C01-valueorder).",
+ "C02": " Also: a failed store in DirHandler.ProcessInbound reaches the session as an error on every path (C02-store); the deferred close of Exchange (C02-close). The deferred clean-up of Exchange never reads from the connection (C02-cleanup); Prepare resets per-session state (C02-session).",
  "C03": " Also: Buffer.Grow/Builder.Grow/slices.Grow with a remote-declared size count as allocation sites.",
- "C04": " Also: when the reader variable may hold a gzip.Reader as well, a discarded read error is a violation (gzip reports its checksum verdict from Read only); the SOH length byte is compared with the raw lengths of the header strings, unmasked (C04-hdrcheck).",
- "C05": " Also: SOH/STX length bytes (C05-framelen); answer/proposal alignment (C05-align); field order and verbatim MID (C05-fieldorder); header length compared with raw lengths (C05-hdrcheck); the FF/FQ decision and the clearing of remoteNoMsgs by a proposal block (C05-turn); the offset of an answer cut by a forward scan.",
- "C06": " Also two necessary conditions of losslessness itself: the ring buffer's wrap-around mirror covers exactly F-1 slots (C06-mirror); the Huffman code accumulator is at least as wide as the deepest leaf _MaxFreq allows (Fibonacci bound) and every putCode call is proved to move at most 16 bits (C06-codewidth).",
- "C07": " Also: EOF only with an empty hold-back buffer, per-call counters do not reach codec state, mirror region and code width as in C06.",
+ "C04": " Also: when the reader variable may hold a gzip.Reader as well, a discarded read error is a violation (gzip reports its checksum verdict from Read only); the SOH length byte is compared with the raw lengths of the header strings, unmasked (C04-hdrcheck). The decompressor is only handed to calls that read to io.EOF (C04-fulldecode); every iteration of the data-block loop appends the byte it read (C04-allbytes).",
+ "C05": " Also: SOH/STX length bytes (C05-framelen); answer/proposal alignment (C05-align); field order and verbatim MID (C05-fieldorder); header length compared with raw lengths (C05-hdrcheck); the FF/FQ decision and the clearing of remoteNoMsgs by a proposal block (C05-turn); the offset of an answer cut by a forward scan. The forwarder line is left only when its list is exhausted (C05-fwline).",
+ "C06": " Also two necessary conditions of losslessness itself: the ring buffer's wrap-around mirror covers exactly F-1 slots (C06-mirror); the Huffman code accumulator is at least as wide as the deepest leaf _MaxFreq allows (Fibonacci bound) and every putCode call is proved to move at most 16 bits (C06-codewidth). The match length the encoder announces is the length it then skips (C06-length); no package-level variable of lzhuf is written at run time (C06-shared).",
+ "C07": " Also: EOF only with an empty hold-back buffer, per-call counters do not reach codec state, mirror region and code width as in C06. Announced match length equals skipped length (C07-length); no package-level state written at run time (C07-shared).",
  "C08": " Also: EOF only with an empty hold-back buffer (C08-drain).",
- "C09": " Also: readSection consumes the terminator unconditionally; every iteration of the attachment loop writes data and CRLF (C09-sections); Header.Add/Set/Get/Del canonicalise keys the same way (C09-keys).",
- "C10": " Also: the sole-recipient test counts To and Cc; Prepare resets the deferral set; SetUnread changes X-Unread only, before serialising, and rewrites the message's own file (C10-unread).",
+ "C09": " Also: readSection consumes the terminator unconditionally; every iteration of the attachment loop writes data and CRLF (C09-sections); Header.Add/Set/Get/Del canonicalise keys the same way (C09-keys). Attachment names and subjects pass QEncoding.Encode on every path (C09-encoded); Message.Bytes returns a buffer owned by the call (C09-owned); values of one key keep their order (C09-valueorder).",
+ "C10": " Also: the sole-recipient test counts To and Cc; Prepare resets the deferral set; SetUnread changes X-Unread only, before serialising, and rewrites the message's own file (C10-unread). An append inside the forwarder loop leaves the loop (C10-once); the deferral map exists whenever SetDeferred can run.",
  "C11": " Also: a publishing function performs no other mutation of the final name.",
  "C12": " Also: identifiers given to SetSent/SetDeferred only reach renames between symmetric names or are checked (C12-localid); OpenMessage replaces X-FilePath with the opened path (C12-filepath).",
- "C13": " Also: a fresh frame value per iteration of the receive loop; io.EOF only on the closed-channel edge; frames reach the TNC connection whole - under a TNC mutex or in one Write (C13-serial); borrowed reader buffers (C13-borrow).",
- "C14": " Also: the frame buffer is not modified inside the retransmission loop; io.EOF only on the closed-channel edge; borrowed reader buffers (ReadSlice result used after reading the CRC bytes: C14-borrow); an arm's assignment counts only if the arm cannot be left before it.",
- "C15": " Also: the parsed dial_timeout reaches the context; the returned type's Read never drops the login reader; the login consumes whole CR-terminated lines only and all formats are constant (C15-login).",
- "C16": " Also: len(response) >= 8 proved; no constant-size buffer between the inputs and md5.Sum (C16-whole); the loop over local addresses is left only when exhausted and every iteration writes (C16-auxlist); the prompt test is made only for lines that are not ;PQ lines (C16-challenge).",
- "C17": " Also: no session field read by the un-joined reporters is written by code reachable from Exchange, and the counters reported belong to the spawning call (C17-owner).",
+ "C13": " Also: a fresh frame value per iteration of the receive loop; io.EOF only on the closed-channel edge; frames reach the TNC connection whole - under a TNC mutex or in one Write (C13-serial); borrowed reader buffers (C13-borrow). A port comparison may not be skipped for a particular port number.",
+ "C14": " Also: the frame buffer is not modified inside the retransmission loop; io.EOF only on the closed-channel edge; borrowed reader buffers (ReadSlice result used after reading the CRC bytes: C14-borrow); an arm's assignment counts only if the arm cannot be left before it. The decode loop is left only at the end of the link (C14-decoder); the BUFFER arm takes the flush lock unconditionally.",
+ "C15": " Also: the parsed dial_timeout reaches the context; the returned type's Read never drops the login reader; the login consumes whole CR-terminated lines only and all formats are constant (C15-login). ReadSlice is refused for login lines; the timeout installation may not depend on the caller's context state.",
+ "C16": " Also: len(response) >= 8 proved; no constant-size buffer between the inputs and md5.Sum (C16-whole); the loop over local addresses is left only when exhausted and every iteration writes (C16-auxlist); the prompt test is made only for lines that are not ;PQ lines (C16-challenge). The handshake writes no package-level variable (C16-shared); cleanString removes LF as well as CR (C16-lines).",
+ "C17": " Also: no session field read by the un-joined reporters is written by code reachable from Exchange, and the counters reported belong to the spawning call (C17-owner). A progress value that subtracts TxBufferLen is clamped at zero (C17-clamp); pending-message details live in per-iteration storage (C17-pending).",
  "C18": " Also: the charset translator is obtained per call; every store to Message.body is followed by the matching Body header on every path; the text is split at every LF with a constant separator (C18-split); every text returned by BodyFromBytes went through the declared charset's translator (C18-decode).",
- "C19": " Also: no dialer call-out under the registry lock; writes need the exclusive lock; registering always replaces the scheme's entry (C19-register); the host parameter overrides unconditionally.",
- "C20": " Also: every labelled optional line stands under non-nil tests only; every Course returned by NewCourse carries the caller's reference.",
+ "C19": " Also: no dialer call-out under the registry lock; writes need the exclusive lock; registering always replaces the scheme's entry (C19-register); the host parameter overrides unconditionally. The target is a literal split of the path at its last '/' (no Base/Dir/Clean).",
+ "C20": " Also: every labelled optional line stands under non-nil tests only; every Course returned by NewCourse carries the caller's reference. The COURSE operand is a string or a Stringer as passed (C20-stringer); a blank hemisphere for a coordinate of exactly zero is reported (known finding).",
 }
 for k, v in ADDED.items():
     if k in claimed:
